@@ -240,3 +240,16 @@ fn table_index_rook(s: Square, blockers: Bitboard) -> usize {
 
     index + occupancies_index_offset as usize
 }
+
+#[cfg(jgilchrist_tcheran_verif)]
+pub const VERIF_TABLE_LEN: usize = 87988;
+
+#[cfg(jgilchrist_tcheran_verif)]
+pub fn verif_table_index_rook(s: Square, blockers: Bitboard) -> usize {
+    table_index_rook(s, blockers)
+}
+
+#[cfg(jgilchrist_tcheran_verif)]
+pub fn verif_table_index_bishop(s: Square, blockers: Bitboard) -> usize {
+    table_index_bishop(s, blockers)
+}
